@@ -168,4 +168,4 @@ ALGO_PREFIX = {'Blake3': 'b3', 'Blake2s': 'b2', 'SHA2_256': 's2', 'SHA3_256': 's
 
 
 def cache_rel(algo, hexd, ext):
-    return f'{ALGO_PREFIX[algo]}/{hexd[:3]}/{hexd[3:6]}/{hexd[6:]}/0' + (f'.{ext}' if ext else '')
+    return f'{ALGO_PREFIX[algo]}/{hexd[:3]}/{hexd[3:6]}/{hexd[6:]}/0.{ext}'
